@@ -27,6 +27,8 @@ class U:
         self.I.u_wrap_var = self.var
         self.I.str_hook = None
         self.calls = []  # log of primitive calls: dicts
+        self.op = None  # description of the operation under contract (for native replay of counter-models)
+        h.u = self
         self.AbsTL = self._make_abs_termlist_class()
         # str(name expression) is the name itself
         _orig_to_str = self.I.to_str
@@ -268,3 +270,55 @@ class U:
         return cls
 
     relax_eliminates = False
+
+    # ---------------------------------------------------------------- native replay of counter-models
+    def record_op(self, op, c1, c2, extra=None, simplify=True):
+        self.op = {"op": op, "c1": c1, "c2": c2, "extra": extra, "simplify": simplify}
+
+    def model_witness(self, model):
+        """Turn a z3 counter-model into a finite table world + script for monitors.m_model.evaluate."""
+        if self.op is None:
+            return None
+        names = model.get_universe(NameS) or []
+        terms = model.get_universe(TermS) or []
+        nname = {str(n): "n%d" % i for i, n in enumerate(names)}
+
+        def ev(e):
+            return z3.is_true(model.eval(e, model_completion=True))
+
+        def name_list(lst):
+            m, d = self.mem(lst), self.dup(lst)
+            out = []
+            for n in names:
+                if ev(_b(m(n))):
+                    out.append(nname[str(n)])
+                    if ev(_b(d(n))):
+                        out.append(nname[str(n)])
+            return out
+
+        def term_ids(tl):
+            m = self.mem(self.terms_of(tl))
+            return [i for i, t in enumerate(terms) if ev(_b(m(t)))]
+
+        table = [{"id": i, "vars": [nname[str(n)] for n in names if ev(tvars(t, n))], "holds": ev(holds(t))} for i, t in enumerate(terms)]
+
+        def cdata(c):
+            return {"in": name_list(c.attrs["inputvars"]), "out": name_list(c.attrs["outputvars"]), "a": term_ids(c.attrs["a"]), "g": term_ids(c.attrs["g"])}
+
+        script = []
+        for rec in self.calls:
+            op = rec["op"]
+            if op in ("refine", "relax", "simplify"):
+                if rec.get("outcome") == "ValueError":
+                    script.append({"op": op, "outcome": "ValueError"})
+                elif "result" in rec:
+                    script.append({"op": op, "outcome": "return", "result": term_ids(rec["result"])})
+            elif op in ("refines", "is_empty"):
+                script.append({"op": op, "outcome": "return", "result": ev(rec["result"])})
+        o = self.op
+        p = {"op": o["op"], "terms": table, "c1": cdata(o["c1"]), "c2": cdata(o["c2"]), "simplify": bool(o["simplify"]), "script": script}
+        if o["op"] == "compose":
+            p["keep"] = name_list(o["extra"]) if o["extra"] is not None else []
+        elif o["op"] == "quotient":
+            p["add"] = name_list(o["extra"]) if o["extra"] is not None else []
+        return p
